@@ -10,6 +10,7 @@ import Mahotas.Proofs.C19Integral
 import Mahotas.Proofs.C19Haralick
 import Mahotas.Proofs.C19Zernike
 import Mahotas.Proofs.C19Necklace
+import Mahotas.Proofs.C19Burnside
 import Mahotas.Proofs.C19HaralickFeat
 import Mahotas.Proofs.C19CoocData
 namespace Mahotas.C19
@@ -229,19 +230,22 @@ For **every** `P ≥ 1` (no bound): two `P`-bit codes are mapped to the same bin
 another (`RotEq`); the pivots are pairwise distinct and every rotation class contains exactly one pivot (a system of
 distinct representatives); hence the number of bins equals the number of rotation classes of `P`-bit codes
 (`Nat.card` of the quotient of `{v // v < 2^P}` by rotation — the equivalence `classEquiv` is `⟦v⟧ ↦ map v`).
-For `1 ≤ P ≤ 12` (kernel evaluation of the model's `lbpMap` on all `2^P` codes) this number times `P` equals
-Burnside's closed form `Σ_{d ∣ P} φ(d) · 2^{P/d}` (Mathlib's `Nat.divisors`, `Nat.totient`): 2, 3, 4, 6, 8, 14, 20, 36,
-60, 108, 188, 352 bins. The general closed form (Burnside's lemma for the cyclic group) is not proved. -/
+And for **every** `P ≥ 1` this number times `P` equals the closed form `Σ_{d ∣ P} φ(d) · 2^{P/d}` (Mathlib's
+`Nat.divisors`, `Nat.totient`) — the number of binary necklaces of length `P`: 2, 3, 4, 6, 8, 14, 20, 36, 60, 108, 188,
+352, … bins. Proof (`Proofs/C19Burnside.lean`): `ZMod P` acts on the codes by `k +ᵥ v = rollRight^k v`, its orbits are
+the rotation classes, a rotation by `k` fixes exactly the `2^gcd(P,k)` codes whose bit pattern is `gcd(P,k)`-periodic
+(Bézout in `ZMod P`), Burnside's lemma, and `#{k < P | gcd(P,k) = d} = φ(P/d)`; for `P ≤ 12` the closed form is also
+confirmed by kernel evaluation of the model's `lbpMap` on all `2^P` codes (`pivots_closed_form`). -/
 theorem C19_lbp_bins_count :
     (∀ P mapped, (lbpCompress P mapped).length = (pivots P).length) ∧
     (∀ P v w, 1 ≤ P → v < 2 ^ P → w < 2 ^ P → (lbpMap P v = lbpMap P w ↔ RotEq P v w)) ∧
     (∀ P, (pivots P).Nodup) ∧
     (∀ P v, 1 ≤ P → v < 2 ^ P → ∃! c, c ∈ pivots P ∧ RotEq P v c) ∧
     (∀ P (hP : 1 ≤ P), Nat.card (Quotient (rotSetoid P hP)) = (pivots P).length) ∧
-    (∀ P, 1 ≤ P → P ≤ 12 → (pivots P).length * P = ∑ d ∈ P.divisors, Nat.totient d * 2 ^ (P / d)) :=
+    (∀ P, 1 ≤ P → (pivots P).length * P = ∑ d ∈ P.divisors, Nat.totient d * 2 ^ (P / d)) :=
   ⟨lbpCompress_length, fun P v w hP hv hw => lbpMap_eq_iff P v w hP hv hw, pivots_nodup,
    fun P v hP hv => pivot_unique P v hP hv, card_classes,
-   fun P h1 h2 => (pivots_closed_form P h1 h2).trans (necklaceSum_mathlib P h1 h2)⟩
+   pivots_burnside⟩
 
 /-- **C19-T7 (the Haralick features without logarithms are their textbook formulas).** `haralick13` (the model the
 driver runs at `Float`, compared with the real `haralick` at 1e-9) is assembled from generic definitions — first part:
